@@ -201,9 +201,9 @@ Theorem add_import_counts : forall i s,
   end.
 Proof.
   intros i s. unfold add_import. destruct (aget i (s_imp s)) as [e|] eqn:E.
-  - destruct (0 <? i_refs e) eqn:Er; unfold set_imp, set_impgen; cbn [s_imp fst snd fx20 cfg_fixed];
+  - destruct (0 <? i_refs e) eqn:Er; unfold bump_recv, set_recv, set_imp, set_impgen; cbn [s_imp fst snd fx20 cfg_fixed];
       rewrite aget_aput, Z.eqb_refl; cbn [i_wire i_gen i_refs]; repeat split; lia.
-  - unfold set_imp, set_impgen; cbn [s_imp fst snd fx20 cfg_fixed]. rewrite aget_aput, Z.eqb_refl. cbn [i_wire i_gen i_refs]. repeat split; lia.
+  - unfold bump_recv, set_recv, set_imp, set_impgen; cbn [s_imp fst snd fx20 cfg_fixed]. rewrite aget_aput, Z.eqb_refl. cbn [i_wire i_gen i_refs]. repeat split; lia.
 Qed.
 
 (* a re-created client never shares its generation with an older client of the same import id
@@ -218,14 +218,14 @@ Theorem add_import_fresh_generation : forall i s,
    end).
 Proof.
   intros i s H. unfold add_import. destruct (aget i (s_imp s)) as [e|] eqn:E.
-  - destruct (0 <? i_refs e) eqn:Er; unfold set_imp, set_impgen; cbn [s_imp s_impgen fst snd fx20 cfg_fixed].
+  - destruct (0 <? i_refs e) eqn:Er; unfold bump_recv, set_recv, set_imp, set_impgen; cbn [s_imp s_impgen fst snd fx20 cfg_fixed].
     + repeat split; try lia. intros j e' Hj. rewrite aget_aput in Hj. destruct (j =? i) eqn:Ej.
       * inversion Hj; subst; cbn [i_gen]. apply (H i e E).
       * apply (H j e' Hj).
     + repeat split; try lia. intros j e' Hj. rewrite aget_aput in Hj. destruct (j =? i) eqn:Ej.
       * inversion Hj; subst; cbn [i_gen]. lia.
       * pose proof (H j e' Hj). lia.
-  - unfold set_imp, set_impgen; cbn [s_imp s_impgen fst snd fx20 cfg_fixed]. repeat split; try lia.
+  - unfold bump_recv, set_recv, set_imp, set_impgen; cbn [s_imp s_impgen fst snd fx20 cfg_fixed]. repeat split; try lia.
     intros j e' Hj. rewrite aget_aput in Hj. destruct (j =? i) eqn:Ej.
     + inversion Hj; subst; cbn [i_gen]. lia.
     + pose proof (H j e' Hj). lia.
